@@ -227,7 +227,9 @@ def rand_case(rng, w):
 
 def rand_number(rng, unicode_digits=False):
     r = rng.random()
-    if r < 0.5:
+    if r < 0.1:
+        n = rng.choice([0, 0, 1])          # boundary numbers: a parsed 0 is falsy in Python (seed C48-d)
+    elif r < 0.5:
         n = rng.randrange(0, 400)
     elif r < 0.8:
         n = rng.randrange(0, 10 ** 7)
@@ -586,6 +588,11 @@ def gen_glue_cfg(rng):
             if r < (0.25 if short != "cut" else 0.15):
                 continue
             fn = _VALUE_FN[short]
+            if rng.random() < 0.12:        # boundary values
+                cfg[short] = rng.choice({"size": ["0", "0 B", "0MB", "1", "1K", "0 Ei"],
+                                         "dur": ["0 s", "0days", "0 mo", "0 YEARS", "1 s", "1 year", "00 day"],
+                                         "date": ["1970-01-01", "1969-12-31", "0001-01-01", "9999-12-31", "1970-01-02"]}[fn])
+                continue
             for _ in range(20):
                 q = rng.random()
                 v = gen_documented(rng, fn)[0] if q < 0.6 else gen_variant(rng, fn) if q < 0.7 else gen_malformed(rng, fn)
@@ -682,7 +689,10 @@ def monitor_glue(ctx, cfg, out):
             got = {"rs": f[1], "old": f[4], "cut": f[5]}[short]
             if short == "old" and mode == "cutoff":
                 continue                  # not used in cutoff-date mode
-            if got != str(want):
+            if short == "old" and want == 0 and got == "None":
+                ctx.violation("[storage]%s = %r (documented: 0 seconds, every lease past its limit) reaches the lease checker as None "
+                              "(no override)" % (key, cfg[short]), case, "glue-override-zero-became-none", out)
+            elif got != str(want):
                 ctx.violation("[storage]%s = %r configures %s, documented value %d" % (key, cfg[short], got, want), case,
                               "glue-%s-misvalued" % key, out)
     if started and "rs" not in cfg and f[1] != "0":
@@ -715,6 +725,18 @@ GLUE_CORPUS = [
     {"mode": "bogus"}, {"mode": "age", "cut": "junk"}, {"rs": "10K # comment"}, {"old": "1 month 15 days"}, {"old": "45 days # was 31"},
     {"old": "3 mon"}, {"rs": "1024 Ki"}, {"rs": "5Gi", "ro": "yes"}, {"mode": "cutoff-date", "cut": "2009-01-16T05:00:00"},
     {"imm": "off", "mut": "0", "dd": "1"}, {"dd": "x"}, {"en": "false", "mode": "Age"},
+] + [
+    # boundary values (seed C48-d: a correctly parsed 0 is falsy): override 0 in age mode, default mode and cutoff mode
+    dict(base, old=v) for v in ("0 s", "0s", "0 days", "0 mo", "0 years", "0S", " 0 days ", "00 day", "0 SECONDS", "1 s", "1s", "1 day")
+    for base in ({"en": "true", "mode": "age"}, {}, {"mode": "cutoff-date", "cut": "1970-01-01"})
+] + [
+    {"rs": v} for v in ("0", "0 B", "0MB", "0 Ki", "00", "1", "1 B", "1K", "1 Ki")
+] + [
+    # cutoff date at the epoch boundary and at the ends of the calendar
+    {"mode": "cutoff-date", "cut": v, "en": "yes"} for v in ("1970-01-01", "1969-12-31", "1970-01-02", "0001-01-01", "9999-12-31", "0000-01-01")
+] + [
+    # every boolean spelling on every boolean key
+    {k: w, "mode": "age"} for k in ("ro", "dd", "en", "imm", "mut") for w in TRUE_WORDS + FALSE_WORDS + BAD_BOOL
 ]
 
 
